@@ -140,8 +140,10 @@ def generate_lossy_samples(
         config=config,
     )
 
-    # Trim output state
-    samples = [x[: len(input)] for x in expanded_samples]
+    # Trim output state. The postselected modes are already removed from the samples.
+    number_of_output_modes = len(input) - len(postselect_data[0])
+
+    samples = [x[:number_of_output_modes] for x in expanded_samples]
 
     return samples
 
